@@ -22,7 +22,7 @@
       parse::query, Query::insert/index_of/iterate_to_*                 Panics.query             query_never_panics
       QueryPairIter (unwrap x5, -= 1, pairs[..index])                   Panics.qi_*              query_iter_never_panics; REPAIRED (55bc7f7),
                                                                                                  query_get_last_v0_refuted
-      Collection::get_from_request, get_host(..).unwrap()               Hosts.choose_host        host_choice_never_panics (C15)
+      Collection::get_from_request, get_host(..).unwrap()               Hosts.choose_host_uri    host_choice_never_panics (C15)
       limiting::register (max_requests * 3, iteration + 1)              Limiter                  limiter_never_panics (C12)
       stream_body (end - start, read - (pos - end))                     Panics.stream_*          stream_window_never_panics, stream_chunk_never_panics
       PresentExtensions::new + split_off(data_start) (file content)     PresentLine              present_line_never_panics (C16)
@@ -121,8 +121,8 @@ Theorem pathquery_never_panics : forall (path : bytes) (query : option bytes),
   pq_path (pq_from path query) = Ok path /\ exists r, pq_query (pq_from path query) = Ok r.
 Proof. intros path query. split; [apply pq_path_ok|apply pq_query_ok]. Qed.
 
-Theorem host_choice_never_panics : forall (ops : list Hosts.op) (c : Hosts.collection) (sni : option bytes) (hh : list bytes),
-  Hosts.build ops = Ok c -> Hosts.choose_host Hosts.V1 c sni hh <> Panic.
+Theorem host_choice_never_panics : forall (ops : list Hosts.op) (c : Hosts.collection) (b : bool) (sni : option bytes) (hh : list bytes) (authority : option bytes),
+  Hosts.build ops = Ok c -> Hosts.choose_host_uri b Hosts.V1 c sni hh authority <> Panic.
 Proof. exact choose_host_no_panic. Qed.
 
 Theorem limiter_never_panics : forall (checked : bool) (cfg : Limiter.config) (t0 : N) (h : list Limiter.event),
